@@ -271,6 +271,8 @@ def make_canon(check_flags=False, check_contents=True):
             if f and j < len(dumps):
                 allowed.append(dumps[j])
             why, window = None, w
+            if w and dump == "skipped":
+                continue          # images inside a recorded window are not opened (see harness/src/crash.rs)
             if dump.startswith("openerr"):
                 why = dump
             elif check_contents and dump not in allowed:
